@@ -91,6 +91,7 @@ class Ctx:
         self.inflight = {}
         self.max_inflight = {}
         self.samegroup = {}
+        self.running_due = {}  # id(task) -> (unique name, instant the running execution is due to complete)
 
     # -- helpers ---------------------------------------------------------
     def ev(self, kind, subject=None, **payload):
@@ -355,6 +356,18 @@ def install():
             ctx.count("events_after_timeout")
         grp = ctx.samegroup.setdefault(et, set())
         grp.add(name)
+        # C03: events take effect in time order, resource-freeing ones first: nothing ranked after
+        # TASK_FINISHED may be handled while an execution that is due by now has not been finished
+        if ctx.running_due and common.EVENT_RANK.get(name, 0) > common.EVENT_RANK["TASK_FINISHED"]:
+            late = [(u, d) for (u, d) in ctx.running_due.values() if d <= et]
+            ctx.count("due_completion_checks")
+            if late:
+                u, d = min(late, key=lambda x: x[1])
+                ctx.violate("C03", "event_handled_before_due_completion",
+                            f"{name} at t={et} handled while {u}, due to complete at {d}, is still running "
+                            f"({len(late)} such execution(s))")
+            elif any(d == et for (_, d) in ctx.running_due.values()):
+                pass
         ctx.ev("EVENT", name, task=(event.task.unique_name if event.task is not None else None))
         if name == "TASK_PLACEMENT":
             _placement_attempt_before(ctx, event)
@@ -807,6 +820,7 @@ def _after_unschedule(ctx, r, task, a, k):
 
 
 def _after_preempt(ctx, r, task, a, k):
+    ctx.running_due.pop(id(task), None)
     ctx.ev("PREEMPT", r["uname"])
 
 
@@ -853,11 +867,17 @@ def _after_start(ctx, r, task, a, k):
             ctx.violate("C03", "placed_with_other_strategy",
                         f"{r['uname']} decision runtime {rt} but placed with strategy runtime {r['strategy_runtime']}")
     r["starts"].append(t)
+    # C03: the instant this execution is due to complete, as drawn by the task itself at start
+    try:
+        ctx.running_due[id(task)] = (r["uname"], t + task.remaining_time.time)
+    except Exception:
+        pass
     ctx.ev("START", r["uname"], at=t)
 
 
 def _after_finish(ctx, r, task, a, k):
     t = ctx.clock
+    ctx.running_due.pop(id(task), None)
     ctx.count("finishes")
     ct = task._completion_time.time if task._completion_time is not None else None
     if r["finishes"]:
@@ -881,6 +901,7 @@ def _after_finish(ctx, r, task, a, k):
 
 
 def _after_cancel(ctx, r, task, a, k):
+    ctx.running_due.pop(id(task), None)
     r["cancelled_at"] = ctx.clock
     ctx.count("cancels")
     ctx.ev("CANCEL", r["uname"])
